@@ -326,6 +326,7 @@ def extract_fn(relpath, qual, ann):
     apply_maploops(ed, it, it["closures"], src, ann, qual, relpath)
     apply_forloops(ed, it["loops"], src, ann, qual)
     apply_fund_sums(ed, src, s0, e0)
+    apply_anyloops(ed, it, it["closures"], src, ann, qual)
     # R6 response attributes
     if ann.get("drop_response_attrs", True):
         for m in it.get("mcalls", []):
@@ -403,6 +404,33 @@ def apply_fund_sums(ed, src, s0, e0):
     for m in _FUND_SUM_ALL.finditer(body):
         x = re.sub(rb"\s+", b"", m.group("x")).decode()
         ed.add(s0 + m.start(), s0 + m.end(), f"verif_sum_all_funds(&{x})", "D5", "coin amounts of every denom summed by the prelude helper")
+
+
+
+def apply_anyloops(ed, it, closures, src, ann, qual):
+    """D16: `X.iter().any(|p| BODY)` -> a block holding an index loop over X with BODY copied by span, stopping at the first hit
+    (`//@anyloop k`, k = ordinal of the closure; the loop invariant is supplied by the annotation)."""
+    for k, inv in (ann.get("anyloops") or {}).items():
+        k = int(k)
+        if k >= len(closures):
+            raise Inconclusive(f"anchor lost: closure #{k} of {qual} (anyloop)")
+        c = closures[k]
+        mp = [m for m in it["mcalls"] if m["name"] == "any" and len(m["args"]) == 1 and m["args"][0] == c["span"]]
+        if len(mp) != 1 or len(c["params"]) != 1:
+            raise Inconclusive(f"D16: closure #{k} of {qual} is not the argument of an .any(|p| ..) call")
+        mp = mp[0]
+        itc = [m for m in it["mcalls"] if m["name"] == "iter" and m["span"][1] == mp["recv_end"]]
+        if len(itc) != 1:
+            raise Inconclusive(f"D16: .any of closure #{k} in {qual} is not of the shape X.iter().any(..)")
+        itc = itc[0]
+        xsrc = src[itc["span"][0]:itc["recv_end"]].decode()
+        ptxt = src[c["params"][0]["span"][0]:c["params"][0]["span"][1]].decode()
+        b0, b1 = c["body"]
+        head = ("{ let verif_anyv = &" + xsrc + "; let mut verif_any = false; let mut verif_ai: usize = 0;\n"
+                "while verif_ai < verif_anyv.len()\n" + inv.rstrip() + "\n    decreases verif_anyv.len() - verif_ai\n"
+                "{ let " + ptxt + " = &verif_anyv[verif_ai]; if ")
+        ed.add(itc["span"][0], b0, head, "D16", f"`{xsrc.strip()[:30]}.iter().any(..)` desugared to an index loop with early exit (closure body copied by span)")
+        ed.add(b1, mp["span"][1], " { verif_any = true; break; } verif_ai = verif_ai + 1; } verif_any }", None)
 
 
 
